@@ -616,6 +616,26 @@ def shared_bookkeeping_under_its_lock(ctx):
             ok = q.guards_imply(gs, want) and 'self._lock' in q.locks_held(c)
             ctx.ob(m, f'{mname}: callback iff finalized and count == 0, decided under the lock', ok,
                    f'the final task would be submitted twice or never (guards under lock: {[(norm(e), p) for e, p in gs]})')
+    # the count itself: +1 per increment, -1 per decrement, each exactly once on every normal path and under the lock; the callback
+    # test in decrement is made after the decrement; increment refuses a finalised counter and decrement an empty one
+    for mname, op in (('increment', ast.Add), ('decrement', ast.Sub)):
+        m = inv.methods[mname]
+        gm = ctx.cfg(m)
+        steps = [n for n in own_nodes(m.node) if isinstance(n, ast.AugAssign) and dotted(n.target) == 'self._count']
+        other = [n for n in own_nodes(m.node) if isinstance(n, ast.Assign) and any(dotted(t) == 'self._count' for t in n.targets)]
+        ok = len(steps) == 1 and not other and isinstance(steps[0].op, op) and isinstance(steps[0].value, ast.Constant) and steps[0].value.value == 1 \
+            and 'self._lock' in q.locks_held(steps[0]) and q.in_loop(steps[0]) is None and gm.must_pass([gm.entry], gm.nodes_of(steps[0]), [gm.exit], gm.NORMAL)
+        ctx.ob(m, f"{mname}: self._count {'+' if op is ast.Add else '-'}= 1, once on every normal path, under the lock", ok,
+               'the counter no longer counts outstanding work one by one: the final task is submitted early (before all writes) or never')
+        rs = [n for n in own_nodes(m.node) if isinstance(n, ast.Raise)]
+        want = 'self._is_finalized' if mname == 'increment' else 'self._count == 0'
+        okr = len(rs) == 1 and q.guards_imply(q.guards(rs[0]), want) and len(q.guards(rs[0])) == 1 and bool(steps) \
+            and not (gm.reach(gm.nodes_of(steps[0]), labels=gm.NORMAL) & set(gm.nodes_of(rs[0])))
+        ctx.ob(m, f'{mname}: refuses when {want}, before touching the count', okr, 'misuse must surface as an error instead of corrupting the count')
+        if mname == 'decrement' and steps:
+            cbs = [c for c, r in q.calls_in(ctx, m) if r.kind == 'open']
+            ctx.ob(m, 'decrement: the zero test that releases the callback is made after the decrement',
+                   bool(cbs) and all(gm.all_dominate(gm.nodes_of(steps[0]), gm.nodes_of(c), gm.NORMAL) for c in cbs), 'tested before the decrement the last job never triggers the final task')
     fin = inv.methods['finalize']
     st = [n for n in own_nodes(fin.node) if isinstance(n, ast.Assign) and dotted(n.targets[0]) == 'self._is_finalized']
     ctx.ob(fin, 'finalize: self._is_finalized = True under the lock, before the count test', len(st) == 1 and 'self._lock' in q.locks_held(st[0])
